@@ -1,74 +1,119 @@
 #!/usr/bin/env python3
 """Runs the registered checks against the seeded changes kept under /verif/seeded/<id>/ (patch.diff + meta.json).
 
-For each seeded change: apply the patch to /repo (git apply), run the quick check of the property it breaks (and optionally the
-thorough one), record whether the check reported a violation (exit 1 with a VIOLATION line), and undo the patch
-(git checkout -- .).  Results go to /verif/seeded/RESULTS.json and are summarised in DESIGN.md section 10.5.
-Not part of any registered command.
+Two modes.  Default (the procedure of the brief): apply the patch to /repo (git apply), run the quick check of the property it
+breaks, record whether the check reported a violation (exit 1 with a VIOLATION line), and undo the patch (git checkout -- .);
+refuses to run when /repo has uncommitted changes.  With --scratch: copy /repo/src to a scratch directory outside /repo and
+/verif, apply the patch there and run the check with VERIF_REPO pointing at the copy (several seeded changes can then be run
+side by side and /repo stays untouched); the copy is removed afterwards.  Results go to /verif/seeded/RESULTS.json and are
+summarised in DESIGN.md section 10.5.  Not part of any registered command.
 
-usage: run_seeded.py [id ...] [--tier quick|thorough] [--seed N]
+usage: run_seeded.py [id ...] [--tier quick|thorough] [--seed N] [--scratch] [--flavours opt,asan] [--jobs N] [--also C06,...]
 """
-import sys, os, json, subprocess, time, glob
+import sys, os, json, subprocess, time, glob, shutil, concurrent.futures, threading
 
 V = os.path.dirname(os.path.dirname(os.path.abspath(__file__)))
 REPO = '/repo'
+SCR = '/var/tmp/seedrun'
+LOCK = threading.Lock()
 
 
 def sh(cmd, **kw):
     return subprocess.run(cmd, shell=True, stdout=subprocess.PIPE, stderr=subprocess.STDOUT, text=True, **kw)
 
 
+def parse(out, rc, prop, tier, seed, t0, mode, flavours):
+    viol = [l for l in out.splitlines() if l.startswith('VIOLATION')]
+    keys = [l.strip()[5:] for l in out.splitlines() if l.strip().startswith('key: ')]
+    return dict(property=prop, tier=tier, seed=seed, exit=rc, caught=(rc == 1 and bool(viol)), new_violation_keys=len(viol), keys=keys[:6],
+                wall_s=round(time.time() - t0), mode=mode, flavours=flavours or 'all')
+
+
 def main():
     args = sys.argv[1:]
-    tier, seed, ids = 'quick', 0, []
+    tier, seed, ids, scratch, flavours, jobs, also = 'quick', 0, [], False, '', 1, []
     i = 0
     while i < len(args):
-        if args[i] == '--tier':
-            tier = args[i + 1]
-            i += 2
-        elif args[i] == '--seed':
-            seed = int(args[i + 1])
-            i += 2
+        a = args[i]
+        if a == '--tier':
+            tier = args[i + 1]; i += 2
+        elif a == '--seed':
+            seed = int(args[i + 1]); i += 2
+        elif a == '--scratch':
+            scratch = True; i += 1
+        elif a == '--flavours':
+            flavours = args[i + 1]; i += 2
+        elif a == '--jobs':
+            jobs = int(args[i + 1]); i += 2
+        elif a == '--also':
+            also = args[i + 1].split(','); i += 2
         else:
-            ids.append(args[i])
-            i += 1
+            ids.append(a); i += 1
     dirs = sorted(glob.glob(os.path.join(V, 'seeded', '*', 'meta.json')))
     resp = os.path.join(V, 'seeded', 'RESULTS.json')
     try:
         results = json.load(open(resp))
     except Exception:
         results = {}
-    if sh('git -C %s status --porcelain --untracked-files=no' % REPO).stdout.strip():
+    if not scratch and sh('git -C %s status --porcelain --untracked-files=no' % REPO).stdout.strip():
         print('refusing to run: /repo has uncommitted changes to tracked files')
         return 2
-    for mp in dirs:
+    head = sh('git -C %s rev-parse --short HEAD' % REPO).stdout.strip()
+
+    def one(mp):
         d = os.path.dirname(mp)
         sid = os.path.basename(d)
-        if ids and sid not in ids:
-            continue
         meta = json.load(open(mp))
         props = meta['breaks'] if isinstance(meta['breaks'], list) else [meta['breaks']]
+        props = props + [p for p in meta.get('also_run', []) if p not in props] + [p for p in also if p not in props]
         patch = os.path.join(d, 'patch.diff')
-        r = sh('git -C %s apply --check %s' % (REPO, patch))
-        if r.returncode != 0:
-            print(sid, 'PATCH DOES NOT APPLY', r.stdout[-300:])
-            results[sid] = dict(error='patch does not apply')
-            continue
-        sh('git -C %s apply %s' % (REPO, patch))
+        env = dict(os.environ, VERIF_SEED=str(seed))
+        if flavours:
+            env['VERIF_FLAVOURS'] = flavours
+        if scratch:
+            root = os.path.join(SCR, sid)
+            shutil.rmtree(root, ignore_errors=True)
+            os.makedirs(root)
+            sh('cp -r %s/src %s/CMakeLists.txt %s/' % (REPO, REPO, root))
+            r = sh('patch -p1 -s < %s' % patch, cwd=root)
+            if r.returncode != 0:
+                with LOCK:
+                    results[sid] = dict(error='patch does not apply to %s: %s' % (head, r.stdout[-200:]))
+                    print(sid, 'PATCH DOES NOT APPLY')
+                shutil.rmtree(root, ignore_errors=True)
+                return
+            env['VERIF_REPO'] = root
+        else:
+            r = sh('git -C %s apply --check %s' % (REPO, patch))
+            if r.returncode != 0:
+                results[sid] = dict(error='patch does not apply')
+                print(sid, 'PATCH DOES NOT APPLY', r.stdout[-300:])
+                return
+            sh('git -C %s apply %s' % (REPO, patch))
         try:
             for prop in props:
                 t0 = time.time()
-                env = dict(os.environ, VERIF_SEED=str(seed))
                 r = sh('%s %s --tier %s --seed %d' % (os.path.join(V, 'vcheck'), prop, tier, seed), cwd=V, env=env)
-                viol = [l for l in r.stdout.splitlines() if l.startswith('VIOLATION')]
-                keys = [l.strip()[5:] for l in r.stdout.splitlines() if l.strip().startswith('key: ')]
-                res = dict(property=prop, tier=tier, seed=seed, exit=r.returncode, caught=(r.returncode == 1 and bool(viol)), keys=keys[:6],
-                           wall_s=round(time.time() - t0))
-                results.setdefault(sid, {})[prop + ':' + tier] = res
-                print('%-28s %s %-8s exit=%d caught=%s %ds %s' % (sid, prop, tier, r.returncode, res['caught'], res['wall_s'], keys[:2]))
+                res = parse(r.stdout, r.returncode, prop, tier, seed, t0, 'scratch-copy' if scratch else 'applied-to-repo', flavours)
+                res['repo_head'] = head
+                with LOCK:
+                    results.setdefault(sid, {})[prop + ':' + tier] = res
+                    print('%-10s %s %-8s exit=%d caught=%s %ds %s' % (sid, prop, tier, r.returncode, res['caught'], res['wall_s'], res['keys'][:2]), flush=True)
+                    json.dump(results, open(resp, 'w'), indent=1, sort_keys=True)
         finally:
-            sh('git -C %s checkout -- .' % REPO)
-        json.dump(results, open(resp, 'w'), indent=1)
+            if scratch:
+                shutil.rmtree(os.path.join(SCR, sid), ignore_errors=True)
+            else:
+                sh('git -C %s checkout -- .' % REPO)
+
+    todo = [mp for mp in dirs if not ids or os.path.basename(os.path.dirname(mp)) in ids]
+    if scratch and jobs > 1:
+        with concurrent.futures.ThreadPoolExecutor(max_workers=jobs) as ex:
+            list(ex.map(one, todo))
+    else:
+        for mp in todo:
+            one(mp)
+    json.dump(results, open(resp, 'w'), indent=1, sort_keys=True)
     return 0
 
 
